@@ -153,13 +153,14 @@ func VH_C16_OutputUTXO() {
 
 // C09 (JSON entry points): node-style documents with any optional part missing never fault.
 func VH_C09_NodeJSONDocs() {
-	doc := nodeTxJSON{Version: vnondetU32("version"), LockTime: vnondetU32("locktime")}
+	// every numeric field of the document is arbitrary (sizes, positions and counts are untrusted too)
+	doc := nodeTxJSON{Version: vnondetU32("version"), LockTime: vnondetU32("locktime"), Size: vnondetInt("size")}
 	if vnondetBool("with-hex") {
 		doc.Hex = "zz"
 	}
 	nIn := vnondetLen("nin", 0, 1)
 	for i := 0; i < nIn; i++ {
-		in := &nodeInputJSON{TxID: "00", Vout: vnondetU32("vout")}
+		in := &nodeInputJSON{TxID: "00", Vout: vnondetU32("vout"), Sequence: vnondetU32("sequence")}
 		if vnondetBool("in-nil") {
 			in = nil
 		} else if vnondetBool("has-scriptsig") {
@@ -170,9 +171,9 @@ func VH_C09_NodeJSONDocs() {
 		}
 		doc.Inputs = append(doc.Inputs, in)
 	}
-	nOut := vnondetLen("nout", 0, 1)
+	nOut := vnondetLen("nout", 0, 2)
 	for i := 0; i < nOut; i++ {
-		out := &nodeOutputJSON{}
+		out := &nodeOutputJSON{Index: vnondetInt("n")}
 		if vnondetBool("out-nil") {
 			out = nil
 		} else if vnondetBool("has-spk") {
@@ -189,7 +190,7 @@ func VH_C09_NodeJSONDocs() {
 	vassume(err == nil)
 	tx := &Tx{}
 	_ = json.Unmarshal(b, tx.NodeJSON())
-	if nOut == 1 && doc.Outputs[0] != nil {
+	if nOut >= 1 && doc.Outputs[0] != nil {
 		ob, err := json.Marshal(doc.Outputs[0])
 		vassume(err == nil)
 		o := &Output{}
